@@ -90,8 +90,8 @@ func Main(install func(devs []*dev.Dev)) {
 		die(3, "WORKER-TROUBLE %d tasks", n)
 	}
 	// real-time guard against a stalled simulation: infrastructure, never a verdict
-	time.AfterFunc(40*time.Second, func() {
-		fmt.Fprintln(os.Stderr, "STALL: the simulation made no end within 40 s; goroutines:")
+	time.AfterFunc(90*time.Second, func() {
+		fmt.Fprintln(os.Stderr, "STALL: the simulation made no end within 90 s; goroutines:")
 		pprof.Lookup("goroutine").WriteTo(os.Stderr, 1)
 		os.Exit(5)
 	})
